@@ -37,6 +37,7 @@ RAISE_TEXTS = {
     'raise-long': lambda: OSError(5, 'x' * 70000),
     'raise-nl': lambda: RuntimeError('line1\r\nline2\n\ttabbed  '),
     'raise-surrogate': lambda: RuntimeError('lone \udc80 surrogate \ufffe'),
+    'raise-fmt': lambda: RuntimeError('100% of {range} %s %d %(x)s {0} {} {{ }'),
 }
 QUEUE_CAPACITY = 10     # sco._OperationsWorker: queue.Queue(10)
 
